@@ -40,7 +40,7 @@ Fails(st, c) ==
   CASE c.op \in {"set", "add", "fromstr"}              -> ~AllOK(c.ts)
     [] c.op \in {"from", "envfrom", "replyto"}         -> ~AllOK(c.ts)
     [] c.op = "setign"                                 -> FALSE
-    [] c.op \in {"addformat", "fromformat", "reset"}   -> FALSE
+    [] c.op \in {"addformat", "fromformat", "reset", "envign"}   -> FALSE
     [] OTHER -> FALSE
 
 Single(k) == k \in {"From", "Env", "Reply"}
@@ -55,6 +55,8 @@ Apply(st, c) ==
          [] c.op = "replyto" -> [st EXCEPT !.Reply = IF c.ts = <<>> THEN @ ELSE <<Entry(c.ts[1])>>]
          [] c.op = "addformat"  -> [st EXCEPT ![c.k] = Append(@, [n |-> c.name, a |-> Tok[c.ts[1]].a])]
          [] c.op = "fromformat" -> [st EXCEPT !.From = <<[n |-> c.name, a |-> Tok[c.ts[1]].a]>>]
+         \* SetAddrHeaderIgnoreInvalid(HeaderEnvelopeFrom, ...): the list of the valid addresses, possibly empty
+         [] c.op = "envign"     -> [st EXCEPT !.Env = Entries(ValidOnly(c.ts))]
          [] c.op = "reset"      -> InitSt          \* Msg.Reset: every address list, the envelope-from included
          [] OTHER -> st
 
@@ -88,6 +90,7 @@ MenuSmall ==
   \cup {C("envfrom", "Env", <<"a5">>, ""), C("replyto", "Reply", <<"a2">>, "")}
   \cup {C("addformat", "Bcc", <<"a1">>, NameCls.quoted)}
   \cup {C("reset", "To", <<>>, ""), C("add", "Cc", <<"a6">>, "")}
+  \cup {C("envign", "Env", <<"bad">>, ""), C("envign", "Env", <<"bad", "a5">>, "")}
 
 MenuFull ==
      {C("set", k, <<t>>, "") : k \in Kinds, t \in {"a1", "a2", "a3", "a4"}}
@@ -104,6 +107,7 @@ MenuFull ==
   \cup {C("addformat", k, <<"a1">>, NameCls[nm]) : k \in Kinds, nm \in DOMAIN NameCls}
   \cup {C("fromformat", "From", <<"a4">>, NameCls[nm]) : nm \in DOMAIN NameCls}
   \cup {C("reset", "To", <<>>, "")} \cup {C("set", k, <<"a6">>, "") : k \in Kinds}
+  \cup {C("envign", "Env", <<"bad">>, ""), C("envign", "Env", <<"bad2", "a5">>, ""), C("envign", "Env", <<>>, "")}
 
 Menu == IF MENU = "full" THEN MenuFull ELSE MenuSmall
 
